@@ -38,6 +38,10 @@ import (
 type Outcome struct {
 	Err  string        // non-empty: answer with a JSON-RPC error carrying this message
 	Drop bool          // close the TCP connection instead of answering (HTTP transport error at the client)
+	// DropAfter: PROCESS the call (eth_sendRawTransaction records and accepts the transaction), then close the TCP
+	// connection instead of answering: the endpoint has the transaction, the client sees a transport error
+	// ("accepted, reply lost": a time-out or reset while the response is on its way).  HTTP endpoints only.
+	DropAfter bool
 	Hold chan struct{} // non-nil: the reply waits until this channel is closed
 }
 
@@ -99,7 +103,12 @@ func New(name string, chainID *big.Int) *Endpoint {
 		}
 		json.Unmarshal(body, &probe)
 		if probe.Method != "" {
-			if o := e.note(probe.Method); o.Drop {
+			o := e.note(probe.Method)
+			if o.DropAfter {
+				r.Body = ioutil.NopCloser(bytes.NewReader(body))
+				e.rpcSrv.ServeHTTP(httptest.NewRecorder(), r) // processed; the answer goes nowhere
+			}
+			if o.Drop || o.DropAfter {
 				if hj, ok := w.(http.Hijacker); ok {
 					if c, _, err := hj.Hijack(); err == nil {
 						c.Close()
@@ -179,7 +188,7 @@ func (e *Endpoint) DropConnections() {
 func (e *Endpoint) Script(method string, o Outcome) {
 	e.mu.Lock()
 	defer e.mu.Unlock()
-	if o.Err == "" && !o.Drop && o.Hold == nil {
+	if o.Err == "" && !o.Drop && !o.DropAfter && o.Hold == nil {
 		delete(e.script, method)
 	} else {
 		e.script[method] = o
